@@ -3,7 +3,10 @@ package main
 import (
 	"fmt"
 	"go/ast"
+	"go/types"
 	"sort"
+
+	"golang.org/x/tools/go/packages"
 )
 
 // knownFuncs (knownfuncs_data.go, generated with `gpycheck -dump knownfuncs`) names the functions that
@@ -36,4 +39,51 @@ func init() {
 		}
 		fmt.Println("}")
 	}
+}
+
+// knownCallers: for a function introduced since the reference was written, the functions of the reference
+// vocabulary in the same package that call it, directly or through at most two other new functions — the
+// functions it was extracted from. A site that a reviewed table lists under one of them and that now sits in
+// the helper was moved, not added: the review goes with it.
+func knownCallers(c *Ctx, p *packages.Package, fd *ast.FuncDecl) []string {
+	if !isNewFunc(declID(p, fd)) {
+		return nil
+	}
+	self, _ := p.TypesInfo.Defs[fd.Name].(*types.Func)
+	if self == nil {
+		return nil
+	}
+	var calls func(from *ast.FuncDecl, depth int) bool
+	calls = func(from *ast.FuncDecl, depth int) bool {
+		hit := false
+		ast.Inspect(from.Body, func(n ast.Node) bool {
+			call, ok := n.(*ast.CallExpr)
+			if !ok || hit {
+				return !hit
+			}
+			cal := Callee(p.TypesInfo, call)
+			if cal == nil || cal.Pkg() != p.Types {
+				return true
+			}
+			if cal == self {
+				hit = true
+			} else if depth > 0 && isNewFunc(FuncID(cal)) {
+				if d := c.Decl(cal); d != nil && d.Body != nil && calls(d, depth-1) {
+					hit = true
+				}
+			}
+			return !hit
+		})
+		return hit
+	}
+	var out []string
+	for _, f := range c.Files(p) {
+		for _, d := range f.Decls {
+			if od, ok := d.(*ast.FuncDecl); ok && od.Body != nil && od != fd && !isNewFunc(declID(p, od)) && calls(od, 2) {
+				out = append(out, declID(p, od))
+			}
+		}
+	}
+	sort.Strings(out)
+	return out
 }
